@@ -36,6 +36,41 @@ func (e *Engine) registerIntrinsics() {
 		}
 		return st.strConst("<itoa>")
 	}
+	// sync.Pool: Get builds a new object with New (a recycled one has unspecified content anyway);
+	// Put marks the object as no longer owned by the caller
+	n["(*sync.Pool).Get"] = func(e *Engine, st *State, a []Value, ci ssa.CallInstruction) Value {
+		p := a[0].(Ptr)
+		pool := st.load(p).(Struct)
+		var newFn Value
+		for i := 0; i < len(pool.F); i++ {
+			if c, ok := pool.F[i].(Closure); ok {
+				newFn = c
+			}
+		}
+		cl, ok := newFn.(Closure)
+		if !ok || cl.Fn == nil {
+			return Iface{}
+		}
+		// an ordinary call of New: its result becomes the result of Get
+		e.pushFrame(st, cl.Fn, nil, cl.Binds)
+		return pushedFrame{}
+	}
+	n["(*sync.Pool).Put"] = func(e *Engine, st *State, a []Value, ci ssa.CallInstruction) Value {
+		if ifc, ok := a[1].(Iface); ok && ifc.T != nil {
+			if p, ok := ifc.V.(Ptr); ok && p.Obj != 0 {
+				if st.released == nil {
+					st.released = map[int]bool{}
+				}
+				st.released[p.Obj] = true
+				if p.Cell >= 0 {
+					if av, ok := getPath(st.obj(p.Obj).Cells[p.Cell], p.Path).(ArrayV); ok {
+						st.released[av.Obj] = true
+					}
+				}
+			}
+		}
+		return nil
+	}
 	n["(*sync.Once).Do"] = func(e *Engine, st *State, a []Value, ci ssa.CallInstruction) Value {
 		p := a[0].(Ptr)
 		key := fmt.Sprintf("once:%d:%d:%v", p.Obj, p.Cell, p.Path)
